@@ -295,6 +295,58 @@ fn seek(bytes: &[u8]) -> String {
     )
 }
 
+/// C18: every size reported for an entry built with EntryBuilder is exact — on the BUILT entry
+/// (before any re-read) and on the re-read one.  args: codec cipher mode len noise piece
+/// answer: `OK <len> <raw_ok><csize_ok><count_ok><partlen_ok><reread_ok>`
+fn sizes(a: &[&str], oracle: &mut Vec<String>) -> String {
+    use libpna::verif_hooks as h;
+    use std::io::Write;
+    let n = |i: usize| -> u64 { a[i].parse().unwrap() };
+    let (codec, cipher, mode, len, noise, piece) = (n(0), n(1), n(2), n(3) as usize, n(4), n(5) as usize);
+    let comp = match codec { 0 => Compression::No, 1 => Compression::Deflate, 2 => Compression::ZStandard, _ => Compression::XZ };
+    let enc = match cipher { 0 => Encryption::No, 1 => Encryption::Aes, _ => Encryption::Camellia };
+    let md = if mode == 0 { CipherMode::CBC } else { CipherMode::CTR };
+    let mut rr = Rng::new(len as u64 * 31 + noise);
+    let content: Vec<u8> = if noise == 1 { rr.bytes(len) } else { (0..len).map(|i| (i % 7) as u8).collect() };
+    let r = guard(|| -> R<String> {
+        let opt = if enc == Encryption::No { WriteOptions::builder().compression(comp).build() } else { enc_options(enc, md, comp) };
+        let mut b = EntryBuilder::new_file("sized".into(), opt)?;
+        if piece == 0 { b.write_all(&content)?; } else { for c in content.chunks(piece) { b.write_all(c)?; } }
+        let built = b.build()?;
+        let (_, data) = h::normal_entry_parts(&built);
+        let psum: usize = data.iter().map(|d| d.len()).sum();
+        let raw_ok = built.metadata().raw_file_size() == Some(len as u128);
+        let cs_ok = built.metadata().compressed_size() == psum;
+        let part_len = EntryPart::from(built.clone()).bytes_len();
+        let mut w = Archive::write_header(Vec::new())?;
+        let cnt = w.add_entry(built)?;
+        let bytes = w.finalize()?;
+        let count_ok = cnt + 40 == bytes.len();
+        let part_ok = part_len + 40 == bytes.len();
+        // re-read
+        let mut ar = Archive::read_header(&bytes[..])?;
+        let e = match ar.entries().next() { Some(Ok(ReadEntry::Normal(e))) => e, _ => return Err(io::Error::other("re-read")) };
+        let fdat: usize = scan(&bytes).unwrap_or_default().iter().filter(|(_, t, _)| t == b"FDAT").map(|(_, _, d)| d.len()).sum();
+        let mut dec = Vec::new();
+        std::io::Read::read_to_end(&mut e.reader(ReadOptions::with_password(Some("pw")))?, &mut dec)?;
+        let re_ok = e.metadata().raw_file_size() == Some(dec.len() as u128) && dec.len() == len && e.metadata().compressed_size() == fdat && fdat == psum;
+        Ok(format!("{} {}{}{}{}{}", len, raw_ok as u8, cs_ok as u8, count_ok as u8, part_ok as u8, re_ok as u8))
+    });
+    let out = show_res(r, |x| x);
+    if let Some(rest) = out.strip_prefix("OK ") {
+        let flags = rest.split(' ').nth(1).unwrap_or("");
+        let names = ["recorded raw size != content length (built entry)", "compressed_size != sum of data payloads (built entry)",
+                     "add_entry returned count != bytes written", "EntryPart::bytes_len != serialised length",
+                     "re-read entry: raw size / compressed size / decoded length disagree"];
+        for (i, ch) in flags.chars().enumerate() {
+            if ch != '1' { oracle.push(names[i].to_string()); }
+        }
+    } else {
+        oracle.push(format!("building or re-reading the entry failed: {}", out));
+    }
+    out
+}
+
 /// entries of `s` ("LIST e1;e2|fin") as a vector, and the fin text
 fn split_list(s: &str) -> Option<(Vec<String>, String)> {
     let body = s.strip_prefix("LIST ")?;
@@ -471,6 +523,7 @@ fn run(c: &Case, oracle: &mut Vec<String>) -> String {
             if a[0] == "slice" { s2 } else { s1 }
         }
         "seek" => seek(&unhex(a[0]).unwrap()),
+        "sizes" => sizes(a, oracle),
         _ => "BADCASE".into(),
     };
     if out == "PANIC" || out.ends_with("|PANIC") {
@@ -627,6 +680,21 @@ fn gen(prop: &str, tier: &str, seed: u64) -> Vec<String> {
             let j = r.below(parts.len() as u64) as usize;
             parts[j] = mutate(&mut r, parts[j].clone());
             v.push(format!("parts\t{}\t{}", rds[i % 2], parts.iter().map(|p| hex(p)).collect::<Vec<_>>().join(",")));
+        }
+    }
+    if want("C18") {
+        let lens: &[usize] = if thorough { &[0, 1, 15, 16, 17, 4095, 4096, 4097, 70_000, 200_000, 1_200_000] } else { &[0, 1, 16, 17, 4096, 70_000, 200_000] };
+        for &len in lens {
+            for codec in [0, 1, 2, 4] {
+                for (cipher, mode) in [(0, 0), (1, 0), (1, 1), (2, 0), (2, 1)] {
+                    for piece in [0usize, 4096] {
+                        if len > 100_000 && codec == 4 && !thorough && cipher != 0 { continue; }
+                        if !thorough && len >= 70_000 && piece == 4096 && cipher == 2 { continue; }
+                        v.push(format!("sizes\t{}\t{}\t{}\t{}\t{}\t{}", codec, cipher, mode, len, 1, piece));
+                        if len > 0 && len <= 4096 { v.push(format!("sizes\t{}\t{}\t{}\t{}\t{}\t{}", codec, cipher, mode, len, 0, piece)); }
+                    }
+                }
+            }
         }
     }
     if want("C13") || want("C18") {
